@@ -1360,7 +1360,7 @@ def check_c08(pid, tier, build, props):
         "distinct_nontrivial": len(set(o["src"] for o in res)),
         "rule": "generated programs over the supported subset (assign, augmented assign, expression statements, return, "
                 "pass, if/elif/else, while/else, for/else, break, continue; tests that are calls, comparisons, not, "
-                "attribute/subscript, and/or chains) whose leaves call an oracle ext(k); stream 'clean' plus two streams "
+                "attribute/subscript, and/or chains) whose leaves call an oracle ext(k); stream 'clean' plus three streams "
                 "with one known-defective feature each; per program: model prune(unpruned) = pruned graph, and all "
                 "decision paths of the function (values 0/1/2 per oracle answer, up to 250 paths) compared with the "
                 "graph's interpretation; distinct by source text",
